@@ -168,10 +168,76 @@ def gen_fluent(rng):
             args.insert(rng.randint(0, len(args)), {"s": "input%d" % rng.randrange(len(refs))})
         kwargs = [[kk, _static(rng)] for kk in rng.sample(KWKEYS, rng.choice([0, 0, 1, 2, 3]))]
         inputs = [[pi, None if (o == "0" and len(prev[pi]) == 1 and rng.random() < 0.7) else o] for pi, o in refs]
-        nodes.append({"name": "n%d" % i, "args": args, "kwargs": kwargs, "inputs": inputs, "num_outputs": len(outs),
-                      "single": rng.random() < 0.5, "beh": _beh(rng, len(outs))})
+        nd = {"name": "n%d" % i, "args": args, "kwargs": kwargs, "inputs": inputs, "num_outputs": len(outs),
+              "single": rng.random() < 0.5, "beh": _beh(rng, len(outs))}
+        if nodes and rng.random() < 0.3:
+            # the SAME Payload object as an earlier node (its args/kwargs/callable), with this node's own inputs:
+            # usually another number of inputs, often fewer
+            j = rng.randrange(len(nodes))
+            nj = len(nodes[j]["inputs"])
+            if nj >= 1 and rng.random() < 0.6:
+                nd["inputs"] = inputs[:rng.randint(0, nj - 1)]
+            nd.update(reuse=j, args=nodes[j]["args"], kwargs=nodes[j]["kwargs"], beh=nodes[j]["beh"], num_outputs=nodes[j]["num_outputs"])
+            if "reuse" in nodes[j]:
+                nd["reuse"] = nodes[j]["reuse"]
+            outs = [str(x) for x in range(nd["num_outputs"])]
+        nodes.append(nd)
         prev.append(outs)
     return {"kind": "fluent", "nodes": nodes}
+
+
+def _payload(rng, arity_hint):
+    """a payload the author wrote: some static arguments, some placeholders placed explicitly (possibly naming an input
+    only the larger nodes have), kwargs; as Payload object, plain callable or functools.partial"""
+    wrap = rng.choice(["payload", "payload", "payload", "callable", "partial"])
+    if wrap == "callable":
+        return {"wrap": wrap, "args": [], "kwargs": []}
+    args = [_static(rng) for _ in range(rng.choice([0, 0, 0, 1, 2]))]
+    if rng.random() < 0.35:
+        for j in rng.sample(range(arity_hint), rng.randint(1, min(2, arity_hint))):
+            args.insert(rng.randint(0, len(args)), {"s": "input%d" % j})
+    kwargs = [[kk, _static(rng)] for kk in rng.sample(KWKEYS, rng.choice([0, 0, 0, 1, 2]))]
+    return {"wrap": wrap, "args": args, "kwargs": kwargs}
+
+
+def gen_fprog(rng, size=None, batch=None):
+    """fluent program: sources -> map / reduce steps; Payload objects shared between steps of different arity.
+    size, batch given: a one-dimensional batched reduction of exactly that shape is among the steps."""
+    if size is not None:
+        dims = [size] if rng.random() < 0.75 else [size, rng.randint(2, 3)]
+    elif rng.random() < 0.6:
+        dims = [rng.randint(2, 9)]
+    else:
+        dims = [rng.randint(2, 5), rng.randint(2, 4)]
+    npay = rng.choice([1, 1, 2, 2, 3])
+    payloads = [_payload(rng, max(dims)) for _ in range(npay)]
+    steps, left = [], {d: n for d, n in zip(["x", "y"], dims)}
+    if size is not None:
+        if rng.random() < 0.3:
+            steps.append({"op": "map", "p": rng.randrange(npay)})
+        steps.append({"op": "reduce", "p": rng.randrange(npay), "dim": "x", "batch": batch})
+        del left["x"]
+    for _ in range(rng.randint(0 if size is not None else 1, 3)):
+        if left and rng.random() < 0.65:
+            d = rng.choice(sorted(left))
+            n = left.pop(d)
+            b = rng.choice([0, 0, 1] + list(range(2, n + 2)) * 2)
+            steps.append({"op": "reduce", "p": rng.randrange(npay), "dim": d, "batch": b})
+        else:
+            steps.append({"op": "map", "p": rng.randrange(npay)})
+    return {"kind": "fprog", "dims": dims, "payloads": payloads, "steps": steps}
+
+
+def fprog_sweep(rng):
+    """batched reductions with every batch size 2..size+1 over every size 2..9 (multiples and non-multiples)"""
+    out = []
+    for size in range(2, 10):
+        for b in range(2, size + 2):
+            c = gen_fprog(rng, size, b)
+            c["mode"] = "fresh" if rng.random() < 0.5 else "shared"
+            c["nopub"] = []
+            out.append(c)
+    return out
 
 
 def gen_prog(rng):
@@ -209,12 +275,14 @@ def gen_job(rng):
 
 def gen_case(rng):
     r = rng.random()
-    if r < 0.36:
+    if r < 0.34:
         c = gen_hand(rng)
-    elif r < 0.68:
+    elif r < 0.64:
         c = gen_fluent(rng)
-    elif r < 0.8:
+    elif r < 0.74:
         c = gen_prog(rng)
+    elif r < 0.82:
+        c = gen_fprog(rng)
     else:
         c = gen_job(rng)
     c["mode"] = "fresh" if rng.random() < 0.5 else "shared"
@@ -299,6 +367,8 @@ def _expected(spec, ref):
     if ref[0] == "static":
         return R.enc(ref[1])
     _, parent, out = ref
+    if "vals" in spec[parent]:
+        return R.enc(spec[parent]["vals"][_out_index(spec, parent, out)])
     return R.enc(R.tok(spec[parent]["key"], _out_index(spec, parent, out)))
 
 
@@ -309,6 +379,8 @@ def oracle(case, real):
     fails = []
     lowering = case["kind"] != "job"
     wf = all(sp["wellformed"] for sp in spec.values())
+    if case["kind"] == "fprog" and (built["lower_error"] or "").startswith("program:"):
+        return [({"kind": "program-not-built"}, "the fluent calls of the program raised %s" % built["lower_error"][8:])]
     if lowering and wf:
         if built["job"] is None:
             return [({"kind": "lowering-failed"}, "graph2job raised %s on a well-formed graph" % built["lower_error"])]
@@ -341,6 +413,24 @@ def oracle(case, real):
         if mine:
             bad.add(name)
             fails += mine
+    if not fails:
+        fails += _check_finals(built, real, st)
+    return fails
+
+
+def _check_finals(built, real, st):
+    """fluent program, seen by its author: the value of every final node is made of every source of its coordinates,
+    each exactly once, and of nothing that looks like a placeholder the author did not write"""
+    import re
+    fails = []
+    for name, want in built.get("finals") or []:
+        run = real["runs"].get(name)
+        if run is None or st.get(name) != "ok" or "0" not in run["stored"]:
+            continue
+        got = run["stored"]["0"].get("t", "")
+        srcs = sorted(re.findall(r"s[0-9_]+#0", got))
+        if srcs != want:
+            fails.append(({"kind": "program-value"}, "final node %s holds %s: sources %s, the program reduces %s" % (name, got, srcs, want)))
     return fails
 
 
@@ -374,7 +464,9 @@ def _check_task(name, sp, run, status, spec):
         else:
             fails.append(({"kind": "unexpected-failure"}, "task %s failed with %s; declaration and yield count agree" % (name, run["error"])))
         return fails
-    if sp["beh"]["kind"] == "gen":
+    if "vals" in sp:
+        want = {sp["outs"][k]: R.enc(sp["vals"][k]) for k in range(n)}
+    elif sp["beh"]["kind"] == "gen":
         want = {sp["outs"][k]: R.enc(R.tok(sp["key"], k)) for k in range(n)}
     else:
         want = {sp["outs"][0]: R.enc(R.tok(sp["key"], 0))}
@@ -416,7 +508,7 @@ def model_lines(case, real):
             continue
         sp = spec[t["name"]]
         lines.append({"op": "run", "tid": t["name"], "ps": t["ps"], "kw": t["kw"], "outs": t["out_schema"], "edges": low["edges"],
-                      "mem": run["avail"], "publish": run["publish"], "result": R.result_json(sp["key"], sp["beh"])})
+                      "mem": run["avail"], "publish": run["publish"], "result": R.result_json(sp["key"], sp["beh"], sp.get("vals"))})
         rec = run["received"]
         expect.append({"received": None if rec is None else {"args": rec["args"], "kwargs": rec["kwargs"]},
                        "handled": run["handled"], "error": run["error"], "completion": run["completion"]})
@@ -447,7 +539,12 @@ def _restrict(case, keep):
     elif case["kind"] == "hand":
         c["nodes"] = [dict(case["nodes"][i], inputs=[[p, idx[pi], o] for p, pi, o in case["nodes"][i]["inputs"]]) for i in keep]
     elif case["kind"] == "fluent":
-        c["nodes"] = [dict(case["nodes"][i], inputs=[[idx[pi], o] for pi, o in case["nodes"][i]["inputs"]]) for i in keep]
+        c["nodes"] = []
+        for i in keep:
+            nd = dict(case["nodes"][i], inputs=[[idx[pi], o] for pi, o in case["nodes"][i]["inputs"]])
+            if nd.get("reuse") is not None:
+                nd["reuse"] = idx[nd["reuse"]]
+            c["nodes"].append(nd)
     return c
 
 
@@ -457,8 +554,36 @@ def _parents(case, i):
     if case["kind"] == "hand":
         return {pi for p, pi, o in case["nodes"][i]["inputs"]}
     if case["kind"] == "fluent":
-        return {pi for pi, o in case["nodes"][i]["inputs"]}
+        nd = case["nodes"][i]
+        return {pi for pi, o in nd["inputs"]} | ({nd["reuse"]} if nd.get("reuse") is not None else set())
     return set()
+
+
+def _fprog_smaller(case):
+    """candidate simplifications of a fluent program (all stay inside the generator's language)"""
+    steps = case["steps"]
+    for i in range(len(steps)):
+        if len(steps) > 1:
+            yield dict(case, steps=steps[:i] + steps[i + 1:])
+    used = {st.get("dim") for st in steps}
+    if len(case["dims"]) == 2 and "y" not in used:
+        yield dict(case, dims=case["dims"][:1])
+    for di, n in enumerate(case["dims"]):
+        d = "xy"[di]
+        if n > 1:
+            c = dict(case, dims=[m - 1 if k == di else m for k, m in enumerate(case["dims"])])
+            # an explicit placeholder must keep naming an input of the largest node
+            yield c
+    for i, st in enumerate(steps):
+        if st["op"] == "reduce" and st["batch"] not in (0, 2):
+            for b in (0, 2, st["batch"] - 1):
+                if b != st["batch"] and b >= 0 and b != 1:
+                    yield dict(case, steps=steps[:i] + [dict(st, batch=b)] + steps[i + 1:])
+    for i, pl in enumerate(case["payloads"]):
+        if pl["args"] or pl["kwargs"]:
+            yield dict(case, payloads=case["payloads"][:i] + [dict(pl, args=[], kwargs=[])] + case["payloads"][i + 1:])
+        if pl["wrap"] != "payload":
+            yield dict(case, payloads=case["payloads"][:i] + [dict(pl, wrap="payload")] + case["payloads"][i + 1:])
 
 
 def _isolate(case, i):
@@ -474,6 +599,7 @@ def _isolate(case, i):
         nd = case["nodes"][i]
         names = ["input%d" % j for j in range(len(nd["inputs"]))]
         c["nodes"] = [dict(nd, inputs=[], args=[a for a in nd["args"] if not (isinstance(a, dict) and a.get("s") in names)])]
+        c["nodes"][0].pop("reuse", None)
     return c
 
 
@@ -487,6 +613,20 @@ def shrink(case, sig):
             if _fails_with(c, sig):
                 return c
         return best
+    if case["kind"] == "fprog":
+        cur, budget, progress = {k: v for k, v in case.items() if k != "nopub_seed"}, 60, True
+        if not _fails_with(cur, sig):
+            cur = case
+        while progress and budget > 0:
+            progress = False
+            for c in _fprog_smaller(cur):
+                budget -= 1
+                if budget <= 0:
+                    break
+                if _fails_with(c, sig):
+                    cur, progress = c, True
+                    break
+        return cur
     items = case["tasks"] if case["kind"] == "job" else case["nodes"]
     for i in range(len(items)):
         c = _isolate(case, i)
@@ -518,7 +658,7 @@ def _fails_with(case, sig):
 # ----------------------------------------------------------------------------- check entry points
 
 def _nontrivial(case):
-    if case["kind"] == "prog":
+    if case["kind"] in ("prog", "fprog"):
         return True
     if case["kind"] == "job":
         return bool(case["edges"]) or any(len(t["outs"]) > 1 for t in case["tasks"])
@@ -555,6 +695,29 @@ def _count(ctx, case, real):
             ctx.count("beh:%s%s" % (beh["kind"], "-multi" if n > 1 else ""))
     for run in real["runs"].values():
         ctx.count("run_error:%s" % run["error"])
+    if case["kind"] == "fprog":
+        left = {d: n for d, n in zip("xy", case["dims"])}
+        for stp in case["steps"]:
+            if stp["op"] == "reduce":
+                n, b = left.pop(stp["dim"]), stp["batch"]
+                if 1 < b < n:
+                    ctx.count("fprog_batched_reduce")
+                    ctx.count("fprog_batched_reduce:" + ("multiple" if n % b == 0 else "remainder-1" if n % b == 1 else "remainder>=2"))
+                else:
+                    ctx.count("fprog_unbatched_reduce")
+            else:
+                ctx.count("fprog_map")
+        by_key = {}
+        for sp in built["spec"].values():
+            by_key.setdefault(sp["key"], set()).add(len(sp["parents"]))
+        if any(len(v) > 1 for v in by_key.values()):
+            ctx.count("fprog_one_payload_nodes_of_different_arity")
+    if case["kind"] == "fluent":
+        for nd in case["nodes"]:
+            if nd.get("reuse") is not None:
+                ctx.count("fluent_payload_object_reused")
+                if len(nd["inputs"]) < len(case["nodes"][nd["reuse"]]["inputs"]):
+                    ctx.count("fluent_payload_object_reused_with_fewer_inputs")
 
 
 _REPORTED = {}
@@ -607,14 +770,14 @@ def _corpus():
 
 def correspond(ctx):
     n = ctx.budget(420, 12000)
-    cases = _corpus()
+    cases = _corpus() + fprog_sweep(ctx.rng)
     for _ in range(n):
         cases.append(gen_case(ctx.rng))
     _evaluate(ctx, cases)
 
 
 def oracle_only(ctx):
-    cases = _corpus() + [gen_case(ctx.rng) for _ in range(ctx.budget(420, 12000))]
+    cases = _corpus() + fprog_sweep(ctx.rng) + [gen_case(ctx.rng) for _ in range(ctx.budget(420, 12000))]
     _evaluate(ctx, cases, check_model=False)
 
 
@@ -623,7 +786,7 @@ def search(ctx, why):
     disagreeing lines were already evaluated by the oracle in `correspond`."""
     if ctx.violations:
         return
-    cases = [gen_case(ctx.rng) for _ in range(ctx.budget(1500, 20000))]
+    cases = fprog_sweep(ctx.rng) + [gen_case(ctx.rng) for _ in range(ctx.budget(1500, 20000))]
     _evaluate(ctx, cases, check_model=False)
 
 
